@@ -119,7 +119,10 @@ BigCat == OnlyBig(<<
     MPt([i \in 1 .. 30 |-> <<2 * ((i * 7) % 21), 2 * ((i * 11) % 19)>>]),
     GC(<< Poly(Sq4(0, 0, 8), <<>>), Poly(Sq4(12, 12, 12), << Rev(Sq4(16, 16, 4)) >>), Poly(Sq4(28, 0, 12), <<>>) >>),
     Pt(<<20, 20>>), Pt(<<4, 36>>), Pt(<<40, 0>>), Pt(<<6, 6>>), Ln(<<0, 40>>, <<40, 0>>), Ln(<<0, 20>>, <<40, 20>>),
-    Rc(<<4, 4>>, <<36, 36>>), Rc(<<16, 0>>, <<24, 40>>), Tri(<<0, 0>>, <<40, 0>>, <<0, 40>>), Tri(<<40, 40>>, <<40, 0>>, <<0, 40>>)
+    Rc(<<4, 4>>, <<36, 36>>), Rc(<<16, 0>>, <<24, 40>>), Tri(<<0, 0>>, <<40, 0>>, <<0, 40>>), Tri(<<40, 40>>, <<40, 0>>, <<0, 40>>),
+    \* a rectangle and the lines that run along one of its sides and stick out at both ends, or at one end, or stop short
+    Rc(<<8, 8>>, <<16, 24>>), Ln(<<8, 4>>, <<8, 28>>), Ln(<<4, 24>>, <<20, 24>>), Ln(<<16, 12>>, <<16, 32>>), Ln(<<12, 8>>, <<12, 4>>),
+    LS(<< <<8, 28>>, <<8, 4>>, <<12, 4>> >>), Tri(<<8, 8>>, <<16, 8>>, <<8, 16>>)
 >>)
 
 \* TLC cannot order records of different shapes inside one set: go through sequences per type
